@@ -241,4 +241,29 @@ theorem lookup_transfer (H : Bytes → Bytes) (p T : Cell) (st acc : PCell) (key
       rw [hs] at h1; cases h1
       exact ⟨_, sT', hlT, h2, by rw [hinfo, (hags.2 0).1, h3]⟩
 
+/-! ### building the hypotheses for trees of ordinary cells (used by the non-vacuity examples) -/
+
+theorem shape_ord (bits : Bits) (refs : List Cell) (h : refs.length ≤ 4) (hs : Shapes refs) : Shape (.mk (-1) bits refs) := by
+  rw [Shape]; exact ⟨h, Or.inl rfl, hs⟩
+theorem shapes_nil : Shapes [] := by rw [Shapes]; trivial
+theorem shapes_cons (c : Cell) (cs : List Cell) (h1 : Shape c) (h2 : Shapes cs) : Shapes (c :: cs) := by
+  rw [Shapes]; exact ⟨h1, h2⟩
+
+theorem ordUnpruned_ord (bits : Bits) (refs : List Cell) (h : OrdUnprunedL refs) : OrdUnpruned (.mk (-1) bits refs) := by
+  rw [OrdUnpruned]; exact ⟨by decide, fun _ => h⟩
+theorem ordUnprunedL_nil : OrdUnprunedL [] := by rw [OrdUnprunedL]; trivial
+theorem ordUnprunedL_cons (c : Cell) (cs : List Cell) (h1 : OrdUnpruned c) (h2 : OrdUnprunedL cs) : OrdUnprunedL (c :: cs) := by
+  rw [OrdUnprunedL]; exact ⟨h1, h2⟩
+
+theorem specInfo_ord_some (H : Bytes → Bytes) (bits : Bits) (refs : List Cell) (h : ∃ ss, specInfos H refs = some ss) :
+    ∃ s, specInfo H (.mk (-1) bits refs) = some s := by
+  obtain ⟨ss, h⟩ := h
+  exact ⟨Spec.node H .ordinary bits ss, by simp [specInfo, kindOf, h]⟩
+theorem specInfos_nil_some (H : Bytes → Bytes) : ∃ ss, specInfos H [] = some ss := ⟨[], by simp [specInfos]⟩
+theorem specInfos_cons_some (H : Bytes → Bytes) (c : Cell) (cs : List Cell) (h1 : ∃ s, specInfo H c = some s)
+    (h2 : ∃ ss, specInfos H cs = some ss) : ∃ ss, specInfos H (c :: cs) = some ss := by
+  obtain ⟨s, h1⟩ := h1
+  obtain ⟨ss, h2⟩ := h2
+  exact ⟨s :: ss, by simp [specInfos, h1, h2]⟩
+
 end TonVerif.Proofs.Locate
